@@ -42,7 +42,7 @@ def run_c02(rep):
 
 def run_c03(rep):
     n, ops = sizes(rep, (320, 16), (5000, 60))
-    families.play_family(rep, n, ops, features=dict(top_jumps=0.4, block_jumps=0.4, hooks=0.4, join=0.35),
+    families.play_family(rep, n, ops, features=dict(top_jumps=0.4, block_jumps=0.4, hooks=0.4, join=0.35, inputs=0.6, conds=0.8, loops=0.5, render=0.5),
                          weights=dict(read=45, choose=35, goto=8, save=6), oracle_names=["oracle_c03", "oracle_c10"],
                          known_classes=known_classes("C03") | known_classes("C10"), label="c03")
     # (the commands in the block of a `-> @join` choice run exactly once too: each block bumps its own counter — C10's oracle)
@@ -151,6 +151,26 @@ def run_c06(rep):
     src = ("import math\nfrom bardic.stdlib.dice import roll\nfrom bardic.stdlib.economy import Wallet\n"
            ":: Start\n~ w = Wallet(3)\nhi\n+ [go] -> Next\n\n:: Next\n~ w2 = Wallet(math.floor(2.5))\n"
            "~ name = roll.__name__\nok {w2.gold} {name} {w.gold}\n")
+    # classes bound under another name, or reached through their module, are rebuilt as objects too
+    for imp, mk in (("from bardic.stdlib.economy import Wallet as Purse2", "Purse2(4)"), ("import bardic.stdlib.economy as eco", "eco.Wallet(4)")):
+        src2 = (f"{imp}\n:: Start\n~ w = {mk}\nhi\n+ [go] -> Mid\n\n:: Mid\nmid\n+ [go] -> Last\n\n:: Last\n"
+                "{w.gold} {w.can_afford(4)} {type(w).__name__}\n")
+        try:
+            from common import quiet as _q
+            import json as _j
+            with _q():
+                from bardic.runtime.engine import BardEngine as _E
+                e = _E(corr_play.compile_source(src2))
+                e.choose(0)
+                doc = _j.loads(_j.dumps(e.save_state()))
+                e2 = _E(corr_play.compile_source(src2))
+                e2.load_state(doc)
+                out = e2.choose(0).content
+            if "4 True Wallet" not in out:
+                rep.violations.append({"cls": None, "what": f"an object of a class imported as `{imp}` is not rebuilt by load_state: {out!r}", "family": "c06-imports", "source": src2})
+        except Exception as ex:  # noqa
+            rep.violations.append({"cls": None, "what": f"class imported as `{imp}`: {type(ex).__name__}: {ex}", "family": "c06-imports", "source": src2})
+        rep.coverage["evaluations"] = rep.coverage.get("evaluations", 0) + 1
     from common import quiet
     import json as _json
     try:
@@ -236,7 +256,7 @@ def run_c11(rep):
 def run_c01(rep):
     import fam_compile
     fam_compile.compile_family(rep, sizes(rep, 400, 8000))
-    n, ops = sizes(rep, (320, 14), (5000, 50))
+    n, ops = sizes(rep, (800, 14), (8000, 50))
     before = len(rep.disagreements)
     families.play_family(rep, n, ops, features=dict(fam_compile.FEATURES, stmt_faults=0.02),
                          weights=dict(choose=78, goto=5, undo=4, redo=2, read=4, bad=2, save=2, load=1, fresh=1, loadbad=0),
@@ -595,6 +615,8 @@ def witness_fails(wj):
         if "compile_error" in c:
             return None
         outs = [c["real"].get("init", {}).get("out", {})] + [st["resp"].get("out", {}) for st in c["real"].get("steps", []) if isinstance(st.get("resp"), dict)]
+        if "bad_pid" in wj:      # the finding persists while the last call still ends in that passage
+            return bool(outs) and (outs[-1] or {}).get("pid") == wj["bad_pid"]
         return any(wj["bad_substring"] in (o or {}).get("content", "") for o in outs)
     if fam == "browser":
         import fam_browser
